@@ -930,9 +930,11 @@ class YAMLPath:
                 # potentially unintentional demarcation.
                 key_text = str(segment_attrs)
                 if "*" in key_text:
-                    # A literal * survives only within demarcation
+                    # A literal * survives only within demarcation, where
+                    # the other demarcation symbols still need escaping
                     ppath += '"{}"'.format(
-                        YAMLPath.ensure_escaped(key_text, '"'))
+                        YAMLPath.ensure_escaped(
+                            key_text, '"', "'", '(', ')', '[', ']'))
                 else:
                     key_text = YAMLPath.ensure_escaped(
                         key_text,
@@ -941,6 +943,10 @@ class YAMLPath:
                     )
                     if key_text.startswith("&"):
                         # Not an ANCHOR mark
+                        key_text = "\\" + key_text
+                    elif (not ppath and key_text.startswith("/")
+                          and separator is not PathSeparators.FSLASH):
+                        # Must not be taken for forward-slash notation
                         key_text = "\\" + key_text
                     ppath += key_text
             elif segment_type == PathSegmentTypes.INDEX:
@@ -1054,17 +1060,25 @@ class YAMLPath:
 
         Returns:  (str) `section` with all special symbols escaped
         """
-        if "*" in str(section):
-            # A literal * survives only within demarcation
+        # The section is raw text, so every backslash in it is literal
+        raw_text = str(section).replace("\\", "\\\\")
+        if "*" in raw_text:
+            # A literal * survives only within demarcation, where the other
+            # demarcation symbols still need escaping
             return '"{}"'.format(
-                YAMLPath.ensure_escaped(section, '\\', '"'))
+                YAMLPath.ensure_escaped(
+                    raw_text, '"', "'", '(', ')', '[', ']'))
 
         escaped = YAMLPath.ensure_escaped(
-            section,
-            '\\', str(pathsep), '(', ')', '[', ']', '^', '$', '%',
+            raw_text,
+            str(pathsep), '(', ')', '[', ']', '^', '$', '%',
             ' ', "'", '"'
         )
         if escaped.startswith("&"):
             # Not an ANCHOR mark
+            escaped = "\\" + escaped
+        elif (escaped.startswith("/")
+              and pathsep is not PathSeparators.FSLASH):
+            # Must not turn a dot-notation path into forward-slash notation
             escaped = "\\" + escaped
         return escaped
